@@ -121,43 +121,80 @@ Proof.
   - intros [k [u [Hin [Hh Hl]]]]. exists (k, u). split; [exact Hin|]. simpl. rewrite Hh. simpl. now apply Z.ltb_lt.
 Qed.
 
-Lemma subtract_max_get k r caps : caps <> [] -> has k r = true ->
-  get k (subtract_max r caps) = get k r - max_of k caps /\ has k (subtract_max r caps) = true.
+Lemma get_map_gen k (f : string -> Z -> Z) (r : rl) :
+  get k (map (fun kv => (fst kv, f (fst kv) (snd kv))) r) = if has k r then f k (get k r) else 0.
 Proof.
-  intros Hne Hh. unfold subtract_max. destruct caps as [|c t]; [contradiction|].
-  rewrite (get_map_sub k (fun x => max_of x (c :: t))), (has_map_sub k (fun x => max_of x (c :: t))), Hh. auto.
+  induction r as [|[k' v] t IH]; simpl; [reflexivity|].
+  destruct (String.eqb k k') eqn:E; simpl; [apply String.eqb_eq in E; subst; reflexivity | exact IH].
 Qed.
 
-(* one admissible NodeClaim: the worst case is subtracted and headroom stays non-negative *)
-Lemma admissible_step r opts k :
-  admissible r opts = true -> has k r = true ->
-  let r1 := subtract_max r (map base opts) in
-  has k r1 = true /\ get k r1 = get k r - max_of k (map base opts) /\ 0 <= get k r1.
+Lemma has_map_gen k (f : string -> Z -> Z) (r : rl) :
+  has k (map (fun kv => (fst kv, f (fst kv) (snd kv))) r) = has k r.
+Proof. induction r as [|[k' v] t IH]; simpl; [reflexivity|]. now rewrite IH. Qed.
+
+(* what one new NodeClaim costs beyond the largest option: one node of a node limit *)
+Definition dec (fixed : bool) (k : string) : Z := if fixed && String.eqb k nodes then one_node else 0.
+
+Lemma subtract_max_get fixed k r caps : caps <> [] -> has k r = true ->
+  get k (subtract_max_gen fixed r caps) = get k r - max_of k caps - dec fixed k /\
+  has k (subtract_max_gen fixed r caps) = true.
 Proof.
-  intros Ha Hh. unfold admissible in Ha. apply andb_true_iff in Ha. destruct Ha as [Ha Hv].
-  apply andb_true_iff in Ha. destruct Ha as [_ Hne]. rewrite forallb_forall in Hv.
-  assert (Hne' : map base opts <> []) by (destruct opts; [discriminate | discriminate]).
-  destruct (subtract_max_get k r _ Hne' Hh) as [Hg Hh1]. simpl. repeat split; [exact Hh1 | exact Hg |].
-  rewrite Hg. destruct (max_of_cases k (map base opts)) as [[H0 Hall]|[c [Hc [Hhc Hm]]]].
-  - rewrite H0. destruct opts as [|it t]; [discriminate|].
+  intros Hne Hh. unfold subtract_max_gen. destruct caps as [|c t]; [contradiction|].
+  rewrite (get_map_gen k (fun x v => v - max_of x (c :: t) - (if fixed && String.eqb x nodes then one_node else 0))),
+          (has_map_gen k (fun x v => v - max_of x (c :: t) - (if fixed && String.eqb x nodes then one_node else 0))), Hh.
+  auto.
+Qed.
+
+Lemma admissible_parts r opts :
+  admissible r opts = true ->
+  nodes_exhausted r = false /\ map base opts <> [] /\ (forall it, In it opts -> viable (base it) r = true).
+Proof.
+  intros Ha. unfold admissible in Ha. apply andb_true_iff in Ha. destruct Ha as [Ha Hv].
+  apply andb_true_iff in Ha. destruct Ha as [Hex Hne]. rewrite forallb_forall in Hv.
+  repeat split; [now apply negb_true_iff in Hex | destruct opts; discriminate | exact Hv].
+Qed.
+
+(* one admissible NodeClaim: the worst case is subtracted; max_of is below the headroom *)
+Lemma admissible_step fixed r opts k :
+  admissible r opts = true -> has k r = true ->
+  let r1 := subtract_max_gen fixed r (map base opts) in
+  has k r1 = true /\ get k r1 = get k r - max_of k (map base opts) - dec fixed k /\
+  max_of k (map base opts) <= get k r.
+Proof.
+  intros Ha Hh. destruct (admissible_parts _ _ Ha) as [_ [Hne Hv]].
+  destruct (subtract_max_get fixed k r _ Hne Hh) as [Hg Hh1]. simpl. repeat split; [exact Hh1 | exact Hg |].
+  destruct (max_of_cases k (map base opts)) as [[H0 Hall]|[c [Hc [Hhc Hm]]]].
+  - rewrite H0. destruct opts as [|it t]; [contradiction Hne; reflexivity|].
     pose proof (viable_le _ _ k (Hv it (or_introl eq_refl)) Hh) as Hle.
-    rewrite (has_false_get k (base it)) in Hle by (apply Hall; now left). lia.
+    rewrite (has_false_get k (base it)) in Hle by (apply Hall; now left). exact Hle.
   - rewrite Hm. apply in_map_iff in Hc. destruct Hc as [it [Hb Hit]]. subst c.
-    pose proof (viable_le _ _ k (Hv it Hit) Hh). lia.
+    exact (viable_le _ _ k (Hv it Hit) Hh).
 Qed.
 
 (* ------------------------------------------------------------------ one pass *)
 
-Definition it_ok (it : itype) : Prop := nonneg (base it) /\ forall k, ov_le_base k it.
+(* guards on the catalog: capacities are non-negative, no offering raises a resource above the base
+   capacity (F12), and instance types do not report a "nodes" capacity *)
+Definition it_ok (it : itype) : Prop :=
+  nonneg (base it) /\ (forall k, ov_le_base k it) /\ get nodes (base it) = 0.
 Definition claims_ok (claims : list (list itype)) : Prop :=
   forall opts it, In opts claims -> In it opts -> it_ok it.
+
+Lemma max_of_nonneg k opts : opts <> [] -> (forall it, In it opts -> it_ok it) -> 0 <= max_of k (map base opts).
+Proof.
+  intros Hne Hok. destruct opts as [|it t]; [contradiction|].
+  assert (get k (base it) <= max_of k (map base (it :: t))).
+  { apply get_le_max_of; [|now left].
+    intros c' Hc'. apply in_map_iff in Hc'. destruct Hc' as [it' [Hb Hit']]. subst c'. apply (Hok it' Hit'). }
+  pose proof (proj1 (Hok it (or_introl eq_refl)) k). lia.
+Qed.
 
 Lemma launch_le_max k opts c :
   (forall it, In it opts -> it_ok it) -> In c (launch_caps opts) -> get k c <= max_of k (map base opts).
 Proof.
   intros Hok Hin. unfold launch_caps in Hin. apply in_flat_map in Hin. destruct Hin as [it [Hit Hc]].
   apply in_map_iff in Hc. destruct Hc as [ov [Hc Hov]]. subst c.
-  destruct (Hok it Hit) as [Hnn Hle]. specialize (Hle k). unfold ov_le_base in Hle.
+  destruct (Hok it Hit) as [Hnn [Hle _]]. specialize (Hle k). unfold ov_le_base in Hle.
   rewrite Forall_forall in Hle. specialize (Hle ov Hov).
   assert (get k (base it) <= max_of k (map base opts)).
   { apply get_le_max_of; [|now apply in_map].
@@ -165,67 +202,83 @@ Proof.
   lia.
 Qed.
 
-Lemma pass_bound k : forall claims r r' launched,
-  run_pass r claims = Some r' -> has k r = true -> claims_ok claims -> launches claims launched ->
-  sum_get k launched <= get k r - get k r' /\ (claims <> [] -> 0 <= get k r') /\ has k r' = true.
+(* a launched node as the cluster counts it costs at most what the pass subtracted for it *)
+Lemma node_cap_le k opts c :
+  opts <> [] -> (forall it, In it opts -> it_ok it) -> In c (launch_caps opts) ->
+  get k (node_cap c) <= max_of k (map base opts) + dec true k.
 Proof.
-  induction claims as [|opts t IH]; intros r r' launched Hrun Hh Hok Hl; simpl in *.
-  - inversion Hrun; subst r'. destruct launched; [|contradiction]. simpl. repeat split; [lia | congruence | exact Hh].
-  - destruct launched as [|c launched]; [contradiction|]. destruct Hl as [Hc Hl].
-    destruct (admissible r opts) eqn:Ea; [|discriminate].
-    destruct (admissible_step r opts k Ea Hh) as [Hh1 [Hg1 Hnn1]].
-    assert (Hok' : claims_ok t) by (intros o it Ho Hit; apply (Hok o it); [now right | exact Hit]).
-    destruct (IH _ _ _ Hrun Hh1 Hok' Hl) as [Hs [Hp Hh']].
-    assert (Hcle : get k c <= max_of k (map base opts)).
-    { apply launch_le_max; [|exact Hc]. intros it Hit. apply (Hok opts it); [now left | exact Hit]. }
-    simpl. repeat split; [lia | | exact Hh'].
-    intros _. destruct t as [|o t']; [|apply Hp; discriminate].
-    simpl in Hrun. inversion Hrun; subst r'. exact Hnn1.
+  intros Hne Hok Hin. unfold node_cap, dec. simpl.
+  destruct (String.eqb k nodes) eqn:E; simpl.
+  - pose proof (max_of_nonneg k opts Hne Hok). lia.
+  - pose proof (launch_le_max k opts c Hok Hin). lia.
 Qed.
 
-Lemma sum_get_node_cap k l : String.eqb k nodes = false -> sum_get k (map node_cap l) = sum_get k l.
+Lemma pass_bound k : forall claims r r' launched,
+  run_pass r claims = Some r' -> has k r = true -> claims_ok claims -> launches claims launched ->
+  sum_get k (map node_cap launched) <= get k r - get k r' /\ has k r' = true.
 Proof.
-  intros Hk. induction l as [|c t IH]; simpl; [reflexivity|]. rewrite Hk, IH. reflexivity.
+  unfold run_pass. induction claims as [|opts t IH]; intros r r' launched Hrun Hh Hok Hl; simpl in *.
+  - inversion Hrun; subst r'. destruct launched; [|contradiction]. simpl. split; [lia | exact Hh].
+  - destruct launched as [|c launched]; [contradiction|]. destruct Hl as [Hc Hl].
+    destruct (admissible r opts) eqn:Ea; [|discriminate].
+    destruct (admissible_step true r opts k Ea Hh) as [Hh1 [Hg1 _]].
+    assert (Hok' : claims_ok t) by (intros o it Ho Hit; apply (Hok o it); [now right | exact Hit]).
+    destruct (IH _ _ _ Hrun Hh1 Hok' Hl) as [Hs Hh'].
+    assert (Hne : opts <> []) by (destruct (admissible_parts _ _ Ea) as [_ [Hne _]]; destruct opts; [contradiction Hne; reflexivity | discriminate]).
+    assert (Hcle : get k (node_cap c) <= max_of k (map base opts) + dec true k).
+    { apply node_cap_le; [exact Hne | | exact Hc]. intros it Hit. apply (Hok opts it); [now left | exact Hit]. }
+    change (sum_get k (map node_cap (c :: launched))) with (get k (node_cap c) + sum_get k (map node_cap launched)).
+    split; [lia | exact Hh'].
+Qed.
+
+(* headroom in whole nodes (trivially true for every other resource) *)
+Definition whole (k : string) (v : Z) : Prop := String.eqb k nodes = false \/ exists n, v = n * one_node.
+
+(* after at least one NodeClaim the headroom is still non-negative *)
+Lemma pass_nonneg k : forall claims r r',
+  run_pass r claims = Some r' -> has k r = true -> claims_ok claims -> whole k (get k r) ->
+  claims <> [] -> 0 <= get k r'.
+Proof.
+  unfold run_pass. induction claims as [|opts t IH]; intros r r' Hrun Hh Hok Hw Hne; [contradiction|]. simpl in Hrun.
+  destruct (admissible r opts) eqn:Ea; [|discriminate].
+  destruct (admissible_step true r opts k Ea Hh) as [Hh1 [Hg1 Hm]].
+  destruct (admissible_parts _ _ Ea) as [Hex [Hne' Hv]].
+  assert (Hoks : forall it, In it opts -> it_ok it) by (intros it Hit; apply (Hok opts it); [now left | exact Hit]).
+  assert (Hok' : claims_ok t) by (intros o it Ho Hit; apply (Hok o it); [now right | exact Hit]).
+  set (r1 := subtract_max_gen true r (map base opts)) in *.
+  assert (H1 : 0 <= get k r1 /\ whole k (get k r1)).
+  { unfold dec in Hg1. simpl in Hg1. destruct (String.eqb k nodes) eqn:E.
+    - apply String.eqb_eq in E. subst k. destruct Hw as [Hw|[n Hn]]; [discriminate|].
+      assert (Hm0 : max_of nodes (map base opts) = 0).
+      { destruct (max_of_cases nodes (map base opts)) as [[H0 _]|[c [Hc [_ Hmc]]]]; [exact H0|].
+        rewrite Hmc. apply in_map_iff in Hc. destruct Hc as [it [Hb Hit]]. subst c. apply (Hoks it Hit). }
+      unfold nodes_exhausted in Hex. rewrite Hh in Hex. simpl in Hex. apply Z.eqb_neq in Hex.
+      unfold one_node in *. clearbody r1. split; [lia | right; exists (n - 1); unfold one_node; lia].
+    - split; [lia | now left]. }
+  destruct H1 as [Hnn1 Hw1].
+  destruct t as [|o t']; [simpl in Hrun; inversion Hrun; subst r'; exact Hnn1|].
+  apply (IH r1 r' Hrun Hh1 Hok' Hw1). discriminate.
 Qed.
 
 Lemma sum_get_app k a b : sum_get k (a ++ b) = sum_get k a + sum_get k b.
 Proof. induction a as [|c t IH]; simpl; [lia|]. rewrite IH. lia. Qed.
 
-(* pass_within_limits, under the two guards the code needs: the resource is not "nodes", and no offering
-   raises a resource above the instance type's base capacity *)
+(* pass_within_limits for EVERY limited resource including "nodes" (since 1e4ed4d16), under the catalog
+   guards of [it_ok] (F12: no offering above the base capacity) and a whole-number node headroom *)
 Lemma pass_within_limits_partial_l : forall limits existing claims r' launched k,
   run_pass (remaining0 limits existing) claims = Some r' ->
   launches claims launched -> claims_ok claims ->
-  String.eqb k nodes = false -> has k limits = true ->
+  has k limits = true -> whole k (get k limits - sum_get k existing) ->
   sum_get k existing + sum_get k (map node_cap launched) <= Z.max (get k limits) (sum_get k existing).
 Proof.
-  intros limits existing claims r' launched k Hrun Hl Hok Hk Hh.
+  intros limits existing claims r' launched k Hrun Hl Hok Hh Hw.
   destruct (remaining0_spec k existing limits Hh) as [Hh0 Hg0].
-  destruct (pass_bound k _ _ _ _ Hrun Hh0 Hok Hl) as [Hs [Hp _]].
-  rewrite sum_get_node_cap by exact Hk.
+  destruct (pass_bound k _ _ _ _ Hrun Hh0 Hok Hl) as [Hs _].
   destruct claims as [|o t].
   - destruct launched; [simpl; lia | contradiction].
-  - assert (0 <= get k r') by (apply Hp; discriminate). lia.
-Qed.
-
-(* the node limit holds for a pass that creates at most one NodeClaim (whole-node limits) *)
-Lemma pass_nodes_single_l : forall limits existing opts r' c,
-  run_pass (remaining0 limits existing) [opts] = Some r' ->
-  has nodes limits = true ->
-  (forall it, In it opts -> nonneg (base it)) ->
-  (exists n, get nodes limits - sum_get nodes existing = n * one_node) ->
-  sum_get nodes existing + sum_get nodes (map node_cap [c]) <= Z.max (get nodes limits) (sum_get nodes existing).
-Proof.
-  intros limits existing opts r' c Hrun Hh Hnn [n Hn]. simpl in Hrun.
-  destruct (admissible _ opts) eqn:Ea; [|discriminate].
-  destruct (remaining0_spec nodes existing limits Hh) as [Hh0 Hg0].
-  unfold admissible in Ea. apply andb_true_iff in Ea. destruct Ea as [Ea Hv].
-  apply andb_true_iff in Ea. destruct Ea as [Hex Hne].
-  unfold nodes_exhausted in Hex. rewrite Hh0 in Hex. simpl in Hex. apply negb_true_iff, Z.eqb_neq in Hex.
-  destruct opts as [|it t]; [discriminate|]. rewrite forallb_forall in Hv.
-  pose proof (viable_le _ _ nodes (Hv it (or_introl eq_refl)) Hh0) as Hle.
-  pose proof (Hnn it (or_introl eq_refl) nodes) as H0.
-  simpl. unfold one_node in *. lia.
+  - assert (0 <= get k r').
+    { apply (pass_nonneg k (o :: t) _ _ Hrun Hh0 Hok); [now rewrite Hg0 | discriminate]. }
+    lia.
 Qed.
 
 (* ------------------------------------------------------------------ rounds *)
@@ -239,15 +292,41 @@ Inductive rounds (limits : rl) : list rl -> list rl -> Prop :=
     rounds limits (map node_cap launched ++ ex) ex' -> rounds limits ex ex'
 | r_remove a x b ex' : nonneg x -> rounds limits (a ++ b) ex' -> rounds limits (a ++ x :: b) ex'.
 
+(* every node counts as exactly one node (StateNode.Capacity) and the node limit is a whole number *)
+Definition whole_nodes (k : string) (limits : rl) (ex : list rl) : Prop :=
+  String.eqb k nodes = false \/
+  ((exists n, get nodes limits = n * one_node) /\ Forall (fun x => get nodes x = one_node) ex).
+
+Lemma sum_nodes_whole ex : Forall (fun x => get nodes x = one_node) ex ->
+  sum_get nodes ex = Z.of_nat (List.length ex) * one_node.
+Proof.
+  induction 1 as [|x t Hx Ht IH]; [reflexivity|].
+  change (sum_get nodes (x :: t)) with (get nodes x + sum_get nodes t). rewrite Hx, IH.
+  change (List.length (x :: t)) with (S (List.length t)). lia.
+Qed.
+
 Lemma rounds_within_limits_partial_l : forall limits ex ex' k,
-  rounds limits ex ex' -> String.eqb k nodes = false -> has k limits = true ->
+  rounds limits ex ex' -> has k limits = true -> whole_nodes k limits ex ->
   sum_get k ex <= get k limits -> sum_get k ex' <= get k limits.
 Proof.
-  intros limits ex ex' k Hr Hk Hh. induction Hr as [ex|ex claims r' launched ex' Hrun Hl Hok Hr IH|a x b ex' Hx Hr IH]; intros Hs.
+  intros limits ex ex' k Hr Hh.
+  induction Hr as [ex|ex claims r' launched ex' Hrun Hl Hok Hr IH|a x b ex' Hx Hr IH]; intros Hw Hs.
   - exact Hs.
-  - apply IH. rewrite sum_get_app.
-    pose proof (pass_within_limits_partial_l _ _ _ _ _ k Hrun Hl Hok Hk Hh). lia.
-  - apply IH. rewrite sum_get_app in *. simpl in Hs. specialize (Hx k). lia.
+  - apply IH.
+    + destruct Hw as [Hw|[Hlim Hall]]; [now left | right]. split; [exact Hlim|].
+      apply Forall_app. split; [|exact Hall]. apply Forall_forall. intros y Hy.
+      apply in_map_iff in Hy. destruct Hy as [c [Hc _]]. subst y. reflexivity.
+    + rewrite sum_get_app.
+      assert (Hwh : whole k (get k limits - sum_get k ex)).
+      { destruct Hw as [Hw|[[n Hn] Hall]]; [now left|]. destruct (String.eqb k nodes) eqn:E; [|now left].
+        apply String.eqb_eq in E. subst k. right. rewrite (sum_nodes_whole _ Hall), Hn.
+        exists (n - Z.of_nat (List.length ex)). lia. }
+      pose proof (pass_within_limits_partial_l _ _ _ _ _ k Hrun Hl Hok Hh Hwh). lia.
+  - apply IH.
+    + destruct Hw as [Hw|[Hlim Hall]]; [now left | right]. split; [exact Hlim|].
+      apply Forall_app in Hall. destruct Hall as [Ha Hb]. inversion Hb; subst. apply Forall_app. now split.
+    + rewrite sum_get_app in *. change (sum_get k (x :: b)) with (get k x + sum_get k b) in Hs.
+      specialize (Hx k). lia.
 Qed.
 
 (* ------------------------------------------------------------------ the oracle *)
@@ -275,7 +354,8 @@ Definition pass_within_limits_stmt : Prop :=
 
 Open Scope string_scope.
 
-(* a dynamic pool with limits.nodes = 2 and three NodeClaims in one pass: subtractMax never lowers "nodes" *)
+(* F11 (fixed in /repo by 1e4ed4d16): a dynamic pool with limits.nodes = 2 and three NodeClaims in one
+   pass; the former subtractMax never lowered "nodes" *)
 Definition w_nodes_limits : rl := [("nodes", 2000)].
 Definition w_nodes_it : itype := mkIT [("cpu", 2000)] [[]].
 Definition w_nodes_claims : list (list itype) := [[w_nodes_it]; [w_nodes_it]; [w_nodes_it]].
@@ -286,19 +366,16 @@ Proof. intros H k. simpl. destruct (String.eqb k "cpu"); lia. Qed.
 Lemma nonneg_nil : nonneg [].
 Proof. intros k. simpl. lia. Qed.
 
-Lemma pass_nodes_refuted_l :
-  exists r', run_pass (remaining0 w_nodes_limits []) w_nodes_claims = Some r' /\
-    launches w_nodes_claims w_nodes_launched /\
-    (forall opts it, In opts w_nodes_claims -> In it opts -> it_nonneg it) /\
-    within_b w_nodes_limits [] w_nodes_launched = false.
+Lemma pass_nodes_prefix_refuted_l :
+  (exists r', run_pass_prefix (remaining0 w_nodes_limits []) w_nodes_claims = Some r') /\
+  launches w_nodes_claims w_nodes_launched /\
+  within_b w_nodes_limits [] w_nodes_launched = false /\
+  run_pass (remaining0 w_nodes_limits []) w_nodes_claims = None.
 Proof.
-  eexists. split; [vm_compute; reflexivity|]. split; [simpl; tauto|]. split; [|vm_compute; reflexivity].
-  intros opts it Ho Hi. assert (it = w_nodes_it).
-  { simpl in Ho. destruct Ho as [H|[H|[H|[]]]]; subst opts; destruct Hi as [H|[]]; now subst. }
-  subst it. split; simpl; [apply nonneg_cpu; lia | constructor; [apply nonneg_nil | constructor]].
+  split; [eexists; vm_compute; reflexivity|]. split; [simpl; tauto|]. split; vm_compute; reflexivity.
 Qed.
 
-(* an offering whose CapacityOverride raises cpu above the base capacity that the filter looked at *)
+(* F12: an offering whose CapacityOverride raises cpu above the base capacity that the filter looked at *)
 Definition w_ov_limits : rl := [("cpu", 8000)].
 Definition w_ov_it : itype := mkIT [("cpu", 4000)] [[("cpu", 16000)]].
 Definition w_ov_launched : list rl := [assign [("cpu", 4000)] [("cpu", 16000)]].
@@ -316,6 +393,6 @@ Qed.
 
 Lemma pass_within_limits_refuted_l : ~ pass_within_limits_stmt.
 Proof.
-  intros H. destruct pass_nodes_refuted_l as [r' [Hrun [Hl [Hok Hb]]]].
+  intros H. destruct pass_override_refuted_l as [r' [Hrun [Hl [Hok Hb]]]].
   specialize (H _ _ _ _ _ Hrun Hl Hok). apply within_b_spec in H. rewrite H in Hb. discriminate.
 Qed.
